@@ -3,6 +3,7 @@ import XPathV.Generated.ExtraFacts
 import XPathV.Model.Api
 import XPathV.Lemmas.Facts
 import XPathV.Lemmas.PredSem
+import XPathV.Lemmas.Pull2Proofs
 /-!
 # C02 — boolean predicates keep exactly the nodes for which the predicate is true
 -/
@@ -135,5 +136,20 @@ theorem C02_filter_is_list_filter (d : Doc) (cfg : ECfg) (inp pred : Plan) (c : 
     (hv : ∀ it ∈ ins, ∃ v, evalP (F := F) d cfg pred it.r = .ok v ∧ IsBSN v ∧ truthM v = tr it.r) :
     ∃ out, sel (F := F) d cfg (.filter inp pred) c = .ok out ∧ refs out = (refs ins).filter tr :=
   sel_filter_bool d cfg inp pred c ins tr hs hv
+
+/-- **no state leaks between evaluations, all sixteen iterator types (`Model/Pull2`)**: from every
+state reachable by any sequence of `Evaluate`, `Clone` and `Select` calls — mid-iteration, exhausted,
+with whatever counters, tables, buffers and closure cursors (the dedup table of `ancestorQuery`, the
+position maps of `filterQuery`, the `level`/`posit` of descendant-over-descendant, the merged-filter
+buffer, the union's buffered iterators) — `Evaluate` followed by a drain reports exactly the sequence
+of the plan for the new context node, and nothing else at any fuel.  This is why the verdict for one
+candidate never depends on which candidates were tested before it. -/
+theorem evaluate_restarts_all_iterators (d : Doc) (cfg : ECfg) (dec : Plan → Ref → Bool) (hd : 0 < d.length)
+    (p0 : Plan) (hw : NeedsWF p0 → WF d) (q : PQ2)
+    (hr : Reach d cfg dec p0 q) (hdec : q.DecOK (F := F) d cfg dec) (c : Ref) (hg : Good d c) :
+    ∃ l, sel (F := F) d cfg p0 c = .ok l ∧
+      (∃ q' c' f0, ∀ f, f0 ≤ f → drain2 d cfg dec f q.evaluate c = some (l, q', c')) ∧
+      (∀ f l' q' c', drain2 d cfg dec f q.evaluate c = some (l', q', c') → l' = l) :=
+  reach_evaluate_restarts d cfg dec hd p0 hw q hr hdec c hg
 
 end XPathV.Theorems.C02
